@@ -229,8 +229,7 @@ func timesParseDuration(args ...tengo.Object) (
 
 	dur, err := time.ParseDuration(s1)
 	if err != nil {
-		ret = wrapError(err)
-		return
+		return wrapError(err), nil
 	}
 
 	ret = &tengo.Int{Value: int64(dur)}
@@ -516,8 +515,7 @@ func timesDate(args ...tengo.Object) (
 		}
 		loc, err = time.LoadLocation(i8)
 		if err != nil {
-			ret = wrapError(err)
-			return
+			return wrapError(err), nil
 		}
 	} else {
 		loc = time.Now().Location()
@@ -570,8 +568,7 @@ func timesParse(args ...tengo.Object) (ret tengo.Object, err error) {
 
 	parsed, err := time.Parse(s1, s2)
 	if err != nil {
-		ret = wrapError(err)
-		return
+		return wrapError(err), nil
 	}
 
 	ret = &tengo.Time{Value: parsed}
@@ -1168,8 +1165,7 @@ func timesInLocation(args ...tengo.Object) (
 
 	location, err := time.LoadLocation(s2)
 	if err != nil {
-		ret = wrapError(err)
-		return
+		return wrapError(err), nil
 	}
 
 	ret = &tengo.Time{Value: t1.In(location)}
